@@ -599,6 +599,35 @@ func judge(k *run.K, c candidate, nreps int, allStartsDirs bool) {
 	}
 	decoderGate(k, g0, v.OK, class)
 	collectionGate(k, g0, v.OK, class)
+	if (verr == nil) == v.OK {
+		payloadBlind(k, g0, verr, v.OK, class)
+	}
+}
+
+// payloadBlind: the documented rules speak about the point set in the plane, so independent Z/M values at
+// every control point (different at coinciding XY locations: closing points, repeated vertices, touching
+// rings) must leave Validate, IsSimple, IsClosed and IsRing - and the decoders that gate on them - unchanged.
+func payloadBlind(k *run.K, g geom.Geometry, verr error, valid bool, class string) {
+	gz := shared.Payload(k.Rng, g, shared.PayloadCT(k.Rng))
+	var ez error
+	var s0, s1, d0, d1 bool
+	if k.Lib("nopanic", func() { ez = gz.Validate(); s0, d0 = g.IsSimple(); s1, d1 = gz.IsSimple() }) {
+		return
+	}
+	k.CheckClass("payload-blind", class, (ez == nil) == (verr == nil), "Validate()=%v for %s but %v with a Z/M payload: %s", verr, g.AsText(), ez, gz.AsText())
+	if verr == nil && ez == nil {
+		k.Check("payload-blind", s0 == s1 && d0 == d1, "IsSimple()=%v,%v for %s but %v,%v with a Z/M payload: %s", s0, d0, g.AsText(), s1, d1, gz.AsText())
+	}
+	if g.IsLineString() {
+		l0, l1 := g.MustAsLineString(), gz.MustAsLineString()
+		var c0, c1, r0, r1 bool
+		if !k.Lib("nopanic", func() { c0, c1, r0, r1 = l0.IsClosed(), l1.IsClosed(), l0.IsRing(), l1.IsRing() }) {
+			k.Check("payload-blind", c0 == c1 && r0 == r1, "IsClosed/IsRing = %v/%v for %s but %v/%v with a Z/M payload: %s", c0, r0, g.AsText(), c1, r1, gz.AsText())
+		}
+	}
+	if k.Index%3 == 0 && (ez == nil) == valid {
+		decoderGate(k, gz, valid, class)
+	}
 }
 
 // collectionGate: a GeometryCollection is valid iff every member is, at any position and depth.
@@ -795,6 +824,9 @@ func lineCase(k *run.K) {
 		}
 	}
 	decoderGate(k, g, v.OK, "")
+	if (verr == nil) == v.OK {
+		payloadBlind(k, g, verr, v.OK, "")
+	}
 }
 
 func multiLineCase(k *run.K) {
@@ -859,6 +891,9 @@ func multiLineCase(k *run.K) {
 		}
 	}
 	decoderGate(k, g, v.OK, "")
+	if (verr == nil) == v.OK {
+		payloadBlind(k, g, verr, v.OK, "")
+	}
 }
 
 // multiPointCase: MultiPoints with repeated and empty members; simple iff no two non-empty members coincide.
